@@ -281,3 +281,8 @@ Definition track (l : list gate) : option gate :=
     then Some (fold_right conj_by core pre) else None
   | [] => None
   end.
+
+(* flat encoding used by the correspondence harness *)
+Definition enc (g : gate) : string * list Z * list Z * option Z :=
+  (gname g, gtargets g, gcontrols g, garg g).
+Definition enc_out (o : option (list gate)) := option_map (map enc) o.
